@@ -113,7 +113,7 @@ def _toks_to_lines(toks, path, src_line_of):
     return lines
 
 
-def build(template_path, repo, variant="strict"):
+def build(template_path, repo, variant="strict", inline=None):
     res = BuildResult()
     tl = _read_template(template_path, variant)
     out = []  # (text, origin)
@@ -292,6 +292,10 @@ def build(template_path, repo, variant="strict"):
             except LostAnchor as e:
                 res.lost.append(str(e))
 
+        if item.kind == "fn" and inline:
+            for hname, helper in inline.items():
+                if hname != item.name:
+                    toks = R.inline_helper(toks, helper, log, where)
         for kk in opts.get("r13", []):
             try:
                 toks = R.r13_index_loop(toks, kk, log, where)
